@@ -132,7 +132,7 @@ def check_case(ctx, case):
         for li, l in enumerate(lines):
             if bi < len(base_lines) and l.startswith(base_lines[bi]):
                 b = base_lines[bi]
-                if bi + 1 < len(base_lines) and b.rstrip().endswith(";") and re.match(r"\s*(CREATE|ALTER|DROP)\b", base_lines[bi + 1], re.I):
+                if bi + 1 < len(base_lines) and b.rstrip().endswith(";") and re.match(r"(CREATE|ALTER|DROP)\s", base_lines[bi + 1], re.I):
                     lines[li] = l.replace(b, b.rstrip()[:-1], 1)
                     base_lines[bi] = b.rstrip()[:-1]
                     ctx.obs["inner_statements_without_terminator"] += 1
@@ -204,8 +204,8 @@ def gen_base(rng):
 def random_case(rng):
     mk = Marker()
     base = gen_base(rng)
-    # (only scripts of CREATE statements: ALTER / CREATE INDEX statements without a terminator are not merged at all on the pinned tree)
-    inner = rng.random() < INNER_UNTERMINATED_P and not any(re.match(r"\s*(ALTER|CREATE\s+(UNIQUE\s+)?INDEX|SET|DROP)\b", l, re.I) for l in base)
+    # (SET lines are assembled by their own rules and are left out)
+    inner = rng.random() < INNER_UNTERMINATED_P and not any(re.match(r"\s*(SET)\b", l, re.I) for l in base)
     _NO_SEMI[0] = inner
     try:
         case = _random_case(rng, mk, base)
